@@ -653,6 +653,9 @@ PROPS["C07"] = dict(
         Family("sched-exh", "sched", lambda tier, seed: ["--mode", "exh", "--cases", {"quick": "60", "thorough": "600"}[tier],
                                                          "--maxsched", {"quick": "120", "thorough": "1500"}[tier]], 60,
                [(61, "serial", SERIAL_CLASSES)], crate="harness-sched"),
+        Family("sched-pb", "sched", lambda tier, seed: ["--mode", "pb", "--cases", {"quick": "60", "thorough": "1500"}[tier],
+                                                        "--maxsched", {"quick": "40", "thorough": "200"}[tier]], 60,
+               [(61, "serial", SERIAL_CLASSES)], crate="harness-sched"),
         Family("sched-random", "sched", lambda tier, seed: ["--mode", "random", "--cases", {"quick": "150", "thorough": "3000"}[tier],
                                                             "--scheds", {"quick": "6", "thorough": "12"}[tier]], 60,
                [(61, "serial", SERIAL_CLASSES)], crate="harness-sched"),
